@@ -68,7 +68,7 @@ impl Property for C13 {
         ]
     }
     fn expected_probes(&self) -> Vec<&'static str> {
-        vec!["recorder_short_writes", "recorder_error", "recorder_write_zero", "load_same_emulator", "load_fresh_dirty", "locked_state", "sp_in_screen", "twin_continuation", "save_failed_cleanly", "iff1_differs_from_iff2_at_save", "save_retried_after_failure", "cpu_halted_at_save", "save_inside_prefix_chain"]
+        vec!["recorder_short_writes", "recorder_error", "recorder_write_zero", "load_same_emulator", "load_fresh_dirty", "locked_state", "sp_in_screen", "twin_continuation", "save_failed_cleanly", "iff1_differs_from_iff2_at_save", "save_retried_after_failure", "cpu_halted_at_save", "save_inside_prefix_chain", "save_right_behind_ei"]
     }
 
     fn gen(&self, rng: &mut Rng, _tier: Tier, _idx: u64) -> Scenario {
@@ -78,6 +78,7 @@ impl Property for C13 {
         sc.set("halted", rng.chance(1, 5) as i64);
         sc.set("sp_class", rng.range(0, 6));
         sc.set("prefix_at_save", rng.chance(1, 8) as i64);
+        sc.set("ei_at_save", rng.chance(1, 8) as i64);
         sc.set("steps", *rng.pick(&[0i64, 0, 1, 7, 300]));
         sc.set("rec_fault", *rng.pick(&[0i64, 0, 0, 1, 1, 2, 3]));
         sc.set("rec_k", rng.range(0, 12));
@@ -171,8 +172,28 @@ impl Property for C13 {
                 return Ok(());
             }
         }
+        // the host may also stop right behind an EI (breakpoint behind it, frame ending on it): IFF2 is set at that
+        // moment and the file says so. The one-instruction interrupt inhibit cannot be carried by the format, so
+        // the items are compared and the twin continuation is skipped.
+        let ei_at_save = sc.get("ei_at_save") != 0 && !halted_at_save && !prefix_at_save && !iff_differ;
+        let mut ei_pending_save = false;
+        if ei_at_save {
+            let stc = cpu_state(&mut e);
+            if stc.pc == 0x8000 && !stc.halted {
+                write_mem(&mut e, 0x8000, &[0xFB, 0x18, 0xFD]); // EI ; JR back to it
+                let _ = step_public(&mut e);
+                let now = cpu_state(&mut e);
+                if now.no_sample && now.iff1 && now.iff2 && now.pc == 0x8001 {
+                    ctx.probe("save_right_behind_ei");
+                    ei_pending_save = true;
+                }
+            }
+            if !ei_pending_save {
+                return Ok(());
+            }
+        }
         // boundary must be clean (no pending prefix / EI)
-        if !prefix_at_save {
+        if !prefix_at_save && !ei_pending_save {
             let st = cpu_state(&mut e);
             if st.no_sample || e.verif_cpu().verif_prefix_pending() {
                 step_public(&mut e).map_err(|x| Fail::new("C13.step", "", x))?;
@@ -310,6 +331,7 @@ impl Property for C13 {
         exp.iff1 = exp.iff2;
         // SNA cannot say "halted": PC on the HALT opcode, not (yet) halted, is its representation
         exp.halted = false;
+        exp.no_sample = false;
         exp.memptr = got.memptr;
         exp.q = got.q;
         if let Some((name, a, b)) = got.diff(&exp, 0) {
@@ -363,6 +385,10 @@ impl Property for C13 {
                     return Err(Fail::new("C13.ram", &format!("machine={},dirt={},bank={}", machine, dname, b), format!("RAM bank {} offset {:04X} is {:02X} after the round trip, it was {:02X}", b, off, page[off], saved_ram[i][off])));
                 }
             }
+        }
+        if ei_pending_save {
+            ctx.units += 1;
+            return Ok(());
         }
         if iff_differ {
             ctx.probe("iff1_differs_from_iff2_at_save");
